@@ -15,7 +15,8 @@ BITS = [("r", 20), ("w", 20), ("rw", 14), ("e", 8), ("h", 8), ("re", 4), ("wh", 
 EINTR_TIME = os.environ.get("VERIF_EVENTS_EINTR_TIME", "1") != "0"
 # time passing before the signal: 0, less than / exactly / more than a millisecond, whole timer periods of USECS
 EINTR_ADV = [0, 1, 1, 999, 1000, 1000, 1001, 1500, 2000, 999999, 1000000, 2500000]
-USECS = [0, 0, 1, 999, 1000, 1001, 1500, 2000, 999999, 1000000, 1000001, 2500000, 2147483000000, 2147483000001, 5000]
+USECS = [0, 0, 1, 999, 1000, 1001, 1500, 2000, 999999, 1000000, 1000001, 2500000, 2147483000000, 2147483000001, 5000,
+         2200000000 * 10**6, 4300000000 * 10**6]     # beyond 2^31 and 2^32 seconds: comparisons must not truncate
 
 
 class G:
